@@ -30,6 +30,18 @@ pub fn generate(
         }
 
         remove_param_bounds(&mut generics);
+        // NOTE: Params are declared in the order in which they are given as arguments
+        generics.params = {
+            let (mut lifetimes, mut params): (Vec<_>, Vec<_>) = generics
+                .params
+                .into_iter()
+                .partition(|param| matches!(param, syn::GenericParam::Lifetime(_)));
+
+            lifetimes.sort_by(|a, b| get_param_ident(a).cmp(get_param_ident(b)));
+            params.sort_by(|a, b| get_param_ident(a).cmp(get_param_ident(b)));
+
+            lifetimes.into_iter().chain(params).collect()
+        };
         let impl_generics = generics.split_for_impl().0;
 
         syn::parse_quote! {
